@@ -23,7 +23,15 @@ package pkgload
 //@   props C14
 //@   loop 3 invariant forall k string :: has(contexts, k) ==> parse.DeclaresContext(lines, k)
 //@   loop 3 invariant forall j int :: 0 <= j && j < idx && parse.IsContextLine(lines[j]) ==> has(contexts, parse.ContextName(lines[j]))
+//@   loop 1 invariant forall k string :: has(g.locals, k) == old(has(g.locals, k))
+//@   loop 2 invariant forall k string :: has(g.locals, k) == old(has(g.locals, k))
+//@   loop 3 invariant forall k string :: has(g.locals, k) == old(has(g.locals, k))
 //@   assigns map(g.locals)
+// the per-package cache is keyed by the package PATH (two packages may share a name)
+//@   ensures has(g.locals, pkg.PkgPath)
+//@   ensures old(has(g.locals, pkg.PkgPath)) && old(has(g.locals[pkg.PkgPath], name)) ==> same(result, old(g.locals[pkg.PkgPath][name]))
+//@   ensures old(has(g.locals, pkg.PkgPath)) && !old(has(g.locals[pkg.PkgPath], name)) ==> same(result, method.EmptyLocalOpts)
+//@   ensures forall k string :: k != pkg.PkgPath ==> has(g.locals, k) == old(has(g.locals, k))
 
 // ---- C14: the per-use parse options reach method.Parse unchanged, together with the local options of
 // ---- exactly the function that is being parsed; nothing but the loader's own cache is written ----
